@@ -1837,6 +1837,9 @@ func (ts *Service) updateAllAssociatedTasks(old, new Template, taskIds []string)
 		return fmt.Errorf("failed to parse new tickscript: %v", err)
 	}
 
+	// DBRPs of the tasks as they were before the update, needed for the rollback.
+	prevDBRPs := make(map[string][]DBRP, len(taskIds))
+
 	// Setup rollback function
 	defer func() {
 		if i == len(taskIds) {
@@ -1856,7 +1859,9 @@ func (ts *Service) updateAllAssociatedTasks(old, new Template, taskIds []string)
 			task.TemplateID = old.ID
 			task.TICKscript = old.TICKscript
 			task.Type = old.Type
-			if len(dbrpsFromProgram(oldPn)) > 0 {
+			if dbrps, ok := prevDBRPs[taskId]; ok {
+				task.DBRPs = dbrps
+			} else if len(dbrpsFromProgram(oldPn)) > 0 {
 				task.DBRPs = []DBRP{}
 				for _, dbrp := range dbrpsFromProgram(oldPn) {
 					task.DBRPs = append(task.DBRPs, DBRP{
@@ -1888,6 +1893,7 @@ func (ts *Service) updateAllAssociatedTasks(old, new Template, taskIds []string)
 		if err != nil {
 			return fmt.Errorf("error retrieving associated task %s: %s", taskId, err)
 		}
+		prevDBRPs[taskId] = task.DBRPs
 		if old.ID != new.ID {
 			// Update association
 			if err := ts.templates.AssociateTask(new.ID, taskId); err != nil {
